@@ -95,6 +95,30 @@ fn sv_str(v: &SValue) -> String {
     }
 }
 
+/// one token as text: `(Type i=.. g=.. s=.. d=[..] c=[..])`; LineNo tokens carry their line
+fn tok_str(t: &sakuramml::token::Token) -> String {
+    let ty = format!("{:?}", t.ttype);
+    let mut out = format!("({} i={} g={}", ty, t.value_i, t.tag);
+    if ty == "LineNo" { out.push_str(&format!(" n={}", t.lineno)); }
+    match &t.value_s { Some(s) => out.push_str(&format!(" s={}", if s.is_empty() { "~".to_string() } else { hex(s.as_bytes()) })), None => {} }
+    if !t.data.is_empty() { out.push_str(&format!(" d=[{}]", t.data.iter().map(sv_tok).collect::<Vec<_>>().join(" "))); }
+    match &t.children { Some(c) => out.push_str(&format!(" c=[{}]", c.iter().map(tok_str).collect::<Vec<_>>().join(" "))), None => {} }
+    out.push(')');
+    out
+}
+fn sv_tok(v: &SValue) -> String {
+    match v {
+        SValue::Int(i) => format!("I{}", i),
+        SValue::Str(s, _) => format!("S{}", if s.is_empty() { "~".to_string() } else { hex(s.as_bytes()) }),
+        SValue::Bool(b) => format!("B{}", if *b { 1 } else { 0 }),
+        SValue::Array(a) => format!("A<{}>", a.iter().map(sv_tok).collect::<Vec<_>>().join(" ")),
+        SValue::IntArray(a) => format!("IA<{}>", a.iter().map(|x| x.to_string()).collect::<Vec<_>>().join(" ")),
+        SValue::StrArray(a) => format!("SA<{}>", a.iter().map(|x| hex(x.as_bytes())).collect::<Vec<_>>().join(" ")),
+        SValue::UserFunc(i) => format!("F{}", i),
+        SValue::None => "N".to_string(),
+    }
+}
+
 fn track_state(t: &Track) -> String {
     format!("tp:{},ch:{},l:{},o:{},v:{},q:{},t:{},key:{}", t.timepos, t.channel, t.length, t.octave, t.velocity, t.qlen, t.timing, t.track_key)
 }
@@ -236,6 +260,23 @@ fn handle(line: &str) -> String {
             let mut out = vec![];
             for (k, v) in names { if want.contains(&k.as_str()) { out.push(format!("{}={}", k, sv_str(v))); } }
             format!("ok vars={}", out.join(","))
+        }
+        "tokens" => {
+            // the real lexer on the given text (no sutoton step): token list and the log
+            let src = unhex_s(a[1]);
+            let mut song = Song::new();
+            let toks = lexer::lex(&mut song, &src, 0);
+            let log = song.get_logs_str();
+            format!("ok toks={} log={}", hex(toks.iter().map(tok_str).collect::<Vec<_>>().join(" ").as_bytes()), if log.is_empty() { "~".to_string() } else { hex(log.as_bytes()) })
+        }
+        "lexrun" => {
+            // lexer + runner on the given text: token list, events per track, final track states
+            let src = unhex_s(a[1]);
+            let mut song = Song::new();
+            let toks = lexer::lex(&mut song, &src, 0);
+            runner::exec(&mut song, &toks);
+            let st: Vec<String> = song.tracks.iter().map(track_state).collect();
+            format!("ok toks={} tracks={} state={} cur={} tb={}", hex(toks.iter().map(tok_str).collect::<Vec<_>>().join(" ").as_bytes()), tracks_str(&song), st.join(";"), song.cur_track, song.timebase)
         }
         "ping" => "ok pong".to_string(),
         _ => "bad-op".to_string(),
